@@ -386,7 +386,7 @@ func checkVisibilityRules(p *core.Program, r *core.Report, rule string) {
 			}
 			var wrong []string
 			for _, s := range []string{"visibility:hidden", "visibility: collapse", "visibility:collapse", "VISIBILITY:HIDDEN", "Visibility: Hidden", "visibility:hidden;", "color:red;visibility:hidden", "color:red; visibility: hidden",
-				"color:red;\tvisibility:collapse", "color:red;\nvisibility:hidden;display:block", "visibility:  hidden"} {
+				"color:red;\tvisibility:collapse", "color:red;\nvisibility:hidden;display:block", "visibility:  hidden", "visibility : hidden", "color:red;visibility :collapse"} {
 				if !re.MatchString(s) {
 					wrong = append(wrong, "misses "+s)
 				}
@@ -401,6 +401,7 @@ func checkVisibilityRules(p *core.Program, r *core.Report, rule string) {
 	}
 	if gd := mustInl(p, r, rule, domutilPkg+".GetDisplayStyle"); gd != nil {
 		// the inline style decides first
+		checkDisplayPattern(p, r, rule, gd)
 		paths, _, _ := core.EnumerateDecisions(p, gd, core.DecisionOpts{MaxPaths: 100000, Outcome: func(in ssa.Instruction, c *core.Canon) (string, bool) {
 			if ret, ok := in.(*ssa.Return); ok {
 				return "return " + c.Of(ret.Results[0]), true
@@ -437,4 +438,44 @@ func checkVisibilityRules(p *core.Program, r *core.Report, rule string) {
 	}
 	// (the two patterns are pinned by the atoms above: private regexps are named by their pattern)
 
+}
+
+// checkDisplayPattern: what the display pattern (a constant of the source, compiled here - no
+// code of the repository runs) says about fixed declarations: it finds the value of the display
+// property in any position of an inline style, with blanks around the colon and with a trailing
+// !important, and takes no other property for it.
+func checkDisplayPattern(p *core.Program, r *core.Report, rule string, gd *ssa.Function) {
+	c := core.NewCanon(p)
+	pats := map[string]bool{}
+	for _, call := range core.Calls(gd, func(ci ssa.CallInstruction) bool { return core.IsCallTo(ci, "(*regexp.Regexp).FindStringSubmatch") }) {
+		if a := c.Of(call.Common().Args[0]); strings.HasPrefix(a, "rx‹") && strings.HasSuffix(c.Of(call.Common().Args[1]), `"style")`) {
+			pats[strings.TrimSuffix(strings.TrimPrefix(a, "rx‹"), "›")] = true
+		}
+	}
+	if len(pats) != 1 {
+		r.Undecided(rule, "the display pattern", fmt.Sprintf("%d patterns applied to the style attribute in GetDisplayStyle", len(pats)))
+		return
+	}
+	for pat := range pats {
+		re, err := regexp.Compile(pat)
+		if err != nil {
+			r.Undecided(rule, "the display pattern", err.Error())
+			return
+		}
+		var wrong []string
+		for _, w := range [][2]string{{"display:none", "none"}, {"display: none;", "none"}, {"DISPLAY:NONE", "NONE"}, {"display:none !important", "none"}, {"display:none!important", "none"},
+			{"display: none ! important;color:red", "none"}, {"display : none", "none"}, {"display :none;", "none"}, {"color:red;display:none", "none"}, {"color:red; display: inline-block ;", "inline-block"},
+			{"color:red;\tdisplay:none", "none"}} {
+			m := re.FindStringSubmatch(w[0])
+			if len(m) < 2 || m[1] != w[1] {
+				wrong = append(wrong, "misses "+w[0])
+			}
+		}
+		for _, s := range []string{"visibility:hidden", "display-mode:none", "color:red", "display:", "display:none foo;"} {
+			if m := re.FindStringSubmatch(s); len(m) >= 2 {
+				wrong = append(wrong, "matches "+s)
+			}
+		}
+		r.Add(rule, "the display pattern reads the display property in every spelling of an inline declaration", p.Pos(gd.Pos()), len(wrong) == 0, strings.Join(wrong, "; ")+" [pattern "+pat+"]")
+	}
 }
